@@ -17,7 +17,8 @@ fn fmt_stub2(_a: core::fmt::Arguments<'_>) -> String {
 // @timeout 900
 // @needs K0
 // @desc rb_slice_key_of_rt_off / l2_slice_key_of_l1_off (lifted verbatim) are the inverse of the slice-key functions: for the top-table entry at byte offset 8*i they return the key of the FIRST slice below entry i, and a slice belongs to entry i iff its key lies in [key_of(8*i), key_of(8*(i+1))) -- so the key window flush_meta_generic derives from a dirty top-table block contains exactly the slices whose parent entry lies in that block
-// @bounds top-table index i < 2^22; any host / guest offset below 2^56; full symbolic geometry
+// @bounds top-table index i: every index whose entry describes space below 2^56; any host / guest offset below 2^56; full symbolic geometry
+// @assume host and guest offsets < 2^56 (limit of the L1/L2/refcount entry encodings)
 // @funcs Qcow2Dev::rb_slice_key_of_rt_off Qcow2Dev::l2_slice_key_of_l1_off HostCluster::rb_slice_key SplitGuestOffset::l2_slice_key
 // @stub alloc::fmt::format -> String::new()
 #[kani::proof]
@@ -26,7 +27,11 @@ fn c15_slice_key_of_top_offset() {
     let g = any_geo();
     let env = KEnv::new(info_of(&g, 1u64 << 62, false, false, false));
     let i: u64 = kani::any();
+    // entry i of either top table describes host / guest space below 2^56 (format limit of the
+    // entry encodings), otherwise `idx << shift << cluster_bits` has no meaning
     kani::assume(i < (1 << 22));
+    kani::assume(i + 1 <= (1u64 << 56) >> (spec::rb_bits(g.cb, g.order) + g.cb));
+    kani::assume(i + 1 <= (1u64 << 56) >> (spec::l2_bits(g.cb) + g.cb));
     // refcount side
     let k_lo = env.seg_k0_rb(8 * i);
     let k_hi = env.seg_k0_rb(8 * (i + 1));
@@ -62,7 +67,7 @@ fn c15_slice_key_of_top_offset() {
 // @timeout 1200
 // @needs K1 K2
 // @desc flush_top_table and flush_meta_generic (whole bodies, awaited calls shimmed) on a refcount table with up to 2 dirty entries: every write they issue for the top table starts at table_offset + (idx << block_bits), is exactly one block long, block aligned, lies inside the table and covers a dirtied entry; flush_meta_generic flushes the child slices of exactly that block's entries first, fsyncs iff something was flushed, and reports done only when no dirty block is left
-// @bounds 512-byte .. 4 KiB blocks symbolic; table of one 4 KiB cluster (512 entries); dirty entries: 2 arbitrary indices; table offset any cluster-aligned value
+// @bounds 512-byte and 1 KiB blocks symbolic; table of 2 KiB (256 entries); dirty entries: 2 arbitrary indices; table offset any cluster-aligned value
 // @funcs Qcow2Dev::flush_top_table Qcow2Dev::flush_meta_generic Table::pop_dirty_blk_idx Table::set_dirty
 // @stub alloc::fmt::format -> String::new()
 #[kani::proof]
@@ -70,15 +75,15 @@ fn c15_slice_key_of_top_offset() {
 #[kani::stub(std::fmt::format, fmt_stub2)]
 fn c16_top_table_flush() {
     let bs: u8 = kani::any();
-    kani::assume(bs >= 9 && bs <= 12);
+    kani::assume(bs >= 9 && bs <= 10);
     let info = crate::meta::verif_header::mk_info(12, 4, 1u64 << 40, bs, Some((12, 8192)), Some((12, 8192)), false, false, false);
     let env = KEnv::new(info);
     let toff: u64 = kani::any();
     kani::assume(toff & 0xfff == 0 && toff >> 56 == 0);
-    let mut rt = RefTable::new(Some(toff), 4096, bs);
+    let mut rt = RefTable::new(Some(toff), 2048, bs);
     let i0: usize = kani::any();
     let i1: usize = kani::any();
-    kani::assume(i0 < 512 && i1 < 512);
+    kani::assume(i0 < 256 && i1 < 256);
     rt.set_refblock_offset(i0, 0x1000);
     rt.set_refblock_offset(i1, 0x2000);
     let which: bool = kani::any();
@@ -94,7 +99,7 @@ fn c16_top_table_flush() {
             if k < n {
                 let w = env.get_rec(k);
                 assert!(w.kind == K_BACKEND_WRITE && w.len as u64 == bsz);
-                assert!(w.off % bsz == 0 && w.off >= toff && w.off + bsz <= toff + 4096);
+                assert!(w.off % bsz == 0 && w.off >= toff && w.off + bsz <= toff + 2048);
                 let lo = w.off - toff;
                 let cov = |i: usize| (i as u64) * 8 >= lo && (i as u64) * 8 + 8 <= lo + bsz;
                 assert!(cov(i0) || cov(i1));
@@ -115,7 +120,7 @@ fn c16_top_table_flush() {
         assert!(fc.kind == K_FLUSH_CACHE);
         let w = env.get_rec(n - 1);
         assert!(w.kind == K_BACKEND_WRITE && w.len as u64 == bsz && w.off % bsz == 0);
-        assert!(w.off >= toff && w.off + bsz <= toff + 4096);
+        assert!(w.off >= toff && w.off + bsz <= toff + 2048);
         let blk = (w.off - toff) >> bs;
         assert!(fc.off as usize == env.seg_k0_rb(blk << bs) && fc.len == env.seg_k0_rb((blk + 1) << bs));
         if env.cache_dirty.get() {
